@@ -8,7 +8,13 @@ $SNAX_REPO. Set C12_RULE=orig to compare against the unpatched placement rule (D
 
 Kinds of cases
   const     transform_constant(attr, tsl) on a flat constant            -> new flat data | None | exception
-  glob      the same through the pass (memref.global + get_global + layout_cast), dense attribute of the new global
+  glob      the same through the pass (initialised memref.global + get_global [+ memory_space_cast] + layout_cast to dense
+            tsl / padded tsl / plain strided targets): dense attribute of the new global vs the model, and the lowered function
+            is executed on flat memories (address = layout of the type): the consumer must read the global's values
+  pipe      set-memory-space,realize-memref-casts end to end on functions without memory spaces: accelerator ops and host
+            copies on arguments and subviews of them, inside loops with operands defined outside; oracle only (symbolic
+            interpreter with memory in cells, before vs after); failures of the unchanged code are attributed to DC12a/b/c
+            by the syntactic clauses of `classify_pipe`
   transpose transpose_tuple
   memspace  set-memory-space on a generated function: signature / operand / alloc / global memory spaces
   realize   realize-memref-casts on a generated function (USES_IMPL): per cast, the block of the cast before and
@@ -106,6 +112,32 @@ def perm_cases(max_rank=3):
                 yield {"kind": "const", "ts": ts, "offset": 0, "shape": shape, "el": "i32", "data": list(range(1, n + 1))}
 
 
+def gen_glob(rng):
+    """an initialised global behind a layout cast: dense tsl targets (folded into the global) and targets that
+    transform_constant refuses (padded / overlapping tsl, plain strided layouts): those must be realised with a copy"""
+    c = gen_const(rng)
+    c["kind"] = "glob"
+    c["form"] = rng.choice(["direct", "chain"])
+    r = rng.random()
+    if r < 0.2:  # a permuted plain strided layout (e.g. column-major)
+        shape = c["shape"]
+        order = list(range(len(shape)))
+        rng.shuffle(order)
+        strides = [0] * len(shape)
+        cur = 1
+        for d in order:
+            strides[d] = cur
+            cur *= shape[d] * rng.choice([1, 1, 2])
+        c["strided"] = strides
+        c["offset"] = 0
+    elif r < 0.4:  # padded tsl: scale the steps of the strides above a random threshold
+        steps = sorted({st for t in c["ts"] for st, _ in t if st})
+        if steps and all(st is not None and b is not None for t in c["ts"] for st, b in t):
+            thr = rng.choice(steps)
+            c["ts"] = [[[st * 2 if st > thr else st, b] for st, b in t] for t in c["ts"]]
+    return c
+
+
 def mk_tsl(ts, offset):
     from snaxc.dialects.tsl import TiledStridedLayoutAttr
     from snaxc.ir.tsl import Stride, TiledStride, TiledStridedLayout
@@ -142,31 +174,121 @@ def glob_src(case):
     shape = "x".join(str(s) for s in case["shape"])
     el = case["el"]
     vals = ", ".join(str(v) for v in case["data"])
-    lay = f"#tsl.tsl<{layout_text(case['ts'], case['offset'])}>"
+    if case.get("strided"):
+        lay = f"strided<[{', '.join(str(x) for x in case['strided'])}]>"
+    else:
+        lay = f"#tsl.tsl<{layout_text(case['ts'], case['offset'])}>"
+    t0 = f"memref<{shape}x{el}>"
+    if case.get("form") == "chain":  # the usual chain: global -> L1 -> accelerator layout
+        t1 = f'memref<{shape}x{el}, "L1">'
+        t2 = f'memref<{shape}x{el}, {lay}, "L1">'
+        body = f'''    %1 = "memref.memory_space_cast"(%0) : ({t0}) -> {t1}
+    %2 = "snax.layout_cast"(%1) : ({t1}) -> {t2}
+    "test.op"(%2) : ({t2}) -> ()'''
+    else:
+        t2 = f"memref<{shape}x{el}, {lay}>"
+        body = f'''    %1 = "snax.layout_cast"(%0) : ({t0}) -> {t2}
+    "test.op"(%1) : ({t2}) -> ()'''
     return f'''builtin.module {{
-  "memref.global"() <{{sym_name = "g", type = memref<{shape}x{el}>, initial_value = dense<[{vals}]> : tensor<{len(case["data"])}x{el}>, sym_visibility = "private", constant}}> : () -> ()
+  "memref.global"() <{{sym_name = "g", type = {t0}, initial_value = dense<[{vals}]> : tensor<{len(case["data"])}x{el}>, sym_visibility = "private", constant}}> : () -> ()
   func.func @f() {{
-    %0 = "memref.get_global"() <{{name = @g}}> : () -> memref<{shape}x{el}>
-    %1 = "snax.layout_cast"(%0) : (memref<{shape}x{el}>) -> memref<{shape}x{el}, {lay}>
-    "test.op"(%1) : (memref<{shape}x{el}, {lay}>) -> ()
+    %0 = "memref.get_global"() <{{name = @g}}> : () -> {t0}
+{body}
     func.return
   }}
 }}
 '''
 
 
+def type_addrs(t):
+    """storage offset of every logical index (row-major order of the indices) of a memref type; own arithmetic"""
+    from xdsl.dialects import builtin
+    from snaxc.dialects.tsl import TiledStridedLayoutAttr
+    shape = list(t.get_shape())
+    idxs = list(itertools.product(*[range(n) for n in shape]))
+    lay = t.layout
+    if isinstance(lay, builtin.NoneAttr):
+        return list(range(len(idxs)))
+    if isinstance(lay, builtin.StridedLayoutAttr):
+        strides = lay.get_strides()
+        off = lay.get_offset() or 0
+        return [off + sum(i * st for i, st in zip(idx, strides)) for idx in idxs]
+    if isinstance(lay, TiledStridedLayoutAttr):
+        ts = [[(st.step, st.bound) for st in t_.strides] for t_ in lay.data.tstrides]
+        off = lay.data.offset or 0
+        return [off + addr_of(ts, idx) for idx in idxs]
+    raise NotImplementedError(str(lay))
+
+
 def impl_glob(case):
-    """the same transformation through `realize-memref-casts` (ApplyLayoutCastMemrefGlobal)"""
-    from xdsl.dialects import memref
+    """The same transformation through `realize-memref-casts` (ApplyLayoutCastMemrefGlobal, or alloc + copy when the
+    constant is not transformed). `out` = dense data of the new global (None: global untouched); `seen` = what the
+    consumer of the cast reads, logical index by logical index, when the lowered function is executed on flat
+    memories (address = layout of the type)."""
+    from xdsl.dialects import builtin, func, memref
+    from snaxc.dialects.snax import LayoutCast
     import warnings
     with warnings.catch_warnings():
         warnings.simplefilter("ignore")
         out = snaxrun.run_passes(glob_src(case), "realize-memref-casts")
     m = snaxrun.parse(out)
+    res = {"out": None}
+    gmem = {}
     for op in m.walk():
-        if isinstance(op, memref.GlobalOp) and op.sym_name.data == "g_transformed":
-            return {"out": [int(v) for v in op.initial_value.get_values()]}
-    return {"out": None}
+        if isinstance(op, memref.GlobalOp):
+            if isinstance(op.initial_value, builtin.DenseIntOrFPElementsAttr):
+                vals = [int(v) for v in op.initial_value.get_values()]
+                gmem[op.sym_name.data] = dict(enumerate(vals))
+                if op.sym_name.data == "g_transformed":
+                    res["out"] = vals
+            else:
+                gmem[op.sym_name.data] = {}
+                if op.sym_name.data == "g_transformed":
+                    res["out"] = "uninitialised"
+    mem_of = {}
+    seen = None
+    f = [o for o in m.walk() if isinstance(o, func.FuncOp)][0]
+    for op in f.body.block.ops:
+        if isinstance(op, memref.GetGlobalOp):
+            mem_of[op.memref] = gmem[op.name_.root_reference.data]
+        elif isinstance(op, memref.AllocOp):
+            mem_of[op.memref] = {}
+        elif isinstance(op, memref.MemorySpaceCastOp):
+            mem_of[op.dest] = mem_of[op.source]
+        elif isinstance(op, LayoutCast):
+            if op.dest.uses.get_length():
+                seen = "a layout cast with uses survived the pass"
+            mem_of[op.dest] = mem_of[op.source]
+        elif isinstance(op, memref.CopyOp):
+            sm, dm = mem_of[op.source], mem_of[op.destination]
+            vals = [sm.get(x, "uninit") for x in type_addrs(op.source.type)]
+            for x, v in zip(type_addrs(op.destination.type), vals):
+                dm[x] = v
+        elif op.name == "test.op" and seen is None:
+            v = op.operands[0]
+            seen = [mem_of[v].get(x, "uninit") for x in type_addrs(v.type)]
+    res["seen"] = seen
+    return res
+
+
+def oracle_glob(case, out):
+    if "raised" in out:
+        return []
+    idxs = list(itertools.product(*[range(n) for n in case["shape"]]))
+    if case.get("strided"):
+        addrs = [sum(i * st for i, st in zip(idx, case["strided"])) for idx in idxs]
+    else:
+        addrs = [addr_of(case["ts"], idx) for idx in idxs]
+    if len(set(addrs)) != len(addrs):
+        return []  # the target layout maps two elements to one address: outside the quantifier (C09's subject)
+    if out["seen"] != case["data"]:
+        moved = isinstance(out.get("out"), list)
+        fid = "DC12d" if moved and case.get("offset") else None
+        bad = out["seen"] if isinstance(out["seen"], str) else next(
+            (f"logical element #{i}: {x} instead of {y}" for i, (x, y) in enumerate(zip(out["seen"], case["data"])) if x != y), "length")
+        return [{"what": f"the consumer of a layout cast of an initialised global does not read the global's values ({bad}; "
+                         f"new global data: {'yes' if moved else out.get('out')})", "finding": fid}]
+    return []
 
 
 def addr_of(ts, idx):
@@ -681,6 +803,241 @@ def impl_realize(case):
     return {"per": per, "sem": sem, "casts_left_with_uses": left}
 
 
+# ------------------------------------------------------------------------------------------------
+# set-memory-space + realize-memref-casts end to end ("pipe")
+# ------------------------------------------------------------------------------------------------
+# values: x, y, z (memref<16xi32>, function arguments without memory space), u, w (memref<8xi32>), and subviews of
+# halves defined at the top of the function: "lo_x" = x[0:8], "hi_x" = x[8:16], ... Body items: ["op", tag, in1, in2, out]
+# (accelerator op on values of one length), ["hcopy", src, dst] (host memref.copy), ["for", [items]].
+# Memory is tracked in cells of 8 elements, so a subview is one cell of its base.
+
+PIPE16 = ["x", "y", "z"]
+PIPE8 = ["u", "w"]
+
+
+def pipe_ty(v):
+    if v in PIPE16:
+        return "memref<16xi32>"
+    if v in PIPE8:
+        return "memref<8xi32>"
+    return f"memref<8xi32, strided<[1], offset: {0 if v.startswith('lo') else 8}>>"
+
+
+def pipe_cells(v):
+    if v in PIPE16:
+        return {(v, 0), (v, 1)}
+    if v in PIPE8:
+        return {(v, 0)}
+    return {(v[3:], 0 if v.startswith("lo") else 1)}
+
+
+def gen_pipe(rng, big=False):
+    subs = [f"{h}_{b}" for b in PIPE16 for h in ("lo", "hi") if rng.random() < 0.3]
+    v16 = list(PIPE16)
+    v8 = PIPE8 + subs * 2
+    tag = [0]
+
+    def item(depth):
+        r = rng.random()
+        if r < 0.3 and depth < 2:
+            return ["for", [item(depth + 1) for _ in range(rng.randint(1, 3))]]
+        pool = v16 if rng.random() < 0.6 else v8
+        if r < 0.5:
+            return ["hcopy", rng.choice(pool), rng.choice(pool)]
+        tag[0] += 1
+        return ["op", tag[0], rng.choice(pool), rng.choice(pool), rng.choice(pool)]
+    body = [item(0) for _ in range(rng.randint(1, 4 if not big else 6))]
+    return {"kind": "pipe", "subs": subs, "body": body}
+
+
+def pipe_src(case):
+    args = ", ".join(f"%{v} : {pipe_ty(v)}" for v in PIPE16 + PIPE8)
+    lines = ["builtin.module {", f"  func.func public @f({args}, %lb : index, %ub : index, %st : index) {{"]
+    for sv in case["subs"]:
+        off = 0 if sv.startswith("lo") else 8
+        lines.append(f"    %{sv} = memref.subview %{sv[3:]}[{off}] [8] [1] : memref<16xi32> to {pipe_ty(sv)}")
+    cnt = [0]
+
+    def emit(items, ind):
+        for it in items:
+            if it[0] == "for":
+                cnt[0] += 1
+                lines.append(f"{ind}scf.for %i{cnt[0]} = %lb to %ub step %st {{")
+                emit(it[1], ind + "  ")
+                lines.append(f"{ind}}}")
+            elif it[0] == "hcopy":
+                _, a, b = it
+                lines.append(f'{ind}"memref.copy"(%{a}, %{b}) : ({pipe_ty(a)}, {pipe_ty(b)}) -> ()')
+            else:
+                _, t, a, b, c = it
+                lines.append(f'{ind}linalg.generic {{indexing_maps = [affine_map<(d0) -> (d0)>, affine_map<(d0) -> (d0)>, affine_map<(d0) -> (d0)>], '
+                             f'iterator_types = ["parallel"]}} ins(%{a}, %{b} : {pipe_ty(a)}, {pipe_ty(b)}) '
+                             f'outs(%{c} : {pipe_ty(c)}) attrs = {{tag = {t}}} {{')
+                lines.append(f"{ind}^bb0(%p{t}: i32, %q{t}: i32, %r{t}: i32):")
+                lines.append(f"{ind}  %s{t} = arith.muli %p{t}, %q{t} : i32")
+                lines.append(f"{ind}  linalg.yield %s{t} : i32")
+                lines.append(f"{ind}}}")
+    emit(case["body"], "    ")
+    lines += ["    func.return", "  }", "}"]
+    return "\n".join(lines) + "\n"
+
+
+class SymC:
+    """symbolic single-core interpreter with memory in cells of 8 elements (views = lists of cells)"""
+
+    def __init__(self, trips, tbl):
+        self.trips, self.tbl, self.entry, self.mem, self.log, self.fresh = trips, tbl, 0, {}, [], 0
+
+    def mk(self, key):
+        return self.tbl.setdefault(key, len(self.tbl))
+
+    def rd(self, c):
+        if c not in self.mem:
+            self.mem[c] = self.mk(("init", c))
+        return self.mem[c]
+
+    def run(self, block, env):
+        from xdsl.dialects import arith, func, linalg, memref, scf
+        from snaxc.dialects.snax import LayoutCast
+        for op in block.ops:
+            if isinstance(op, (memref.MemorySpaceCastOp, LayoutCast)):
+                env[op.results[0]] = env[op.operands[0]]
+            elif isinstance(op, memref.SubviewOp):
+                off = op.static_offsets.get_values()[0]
+                size = op.static_sizes.get_values()[0]
+                assert off % 8 == 0 and size % 8 == 0 and not op.offsets and not op.sizes
+                env[op.result] = env[op.source][off // 8:(off + size) // 8]
+            elif isinstance(op, memref.AllocOp):
+                self.fresh += 1
+                n = op.memref.type.get_shape()[0] // 8
+                cells = [("alloc", self.fresh, i) for i in range(n)]
+                for c in cells:
+                    self.mem[c] = self.mk(("uninit",))
+                env[op.memref] = cells
+            elif isinstance(op, memref.CopyOp):
+                vals = [self.rd(c) for c in env[op.source]]
+                for c, v in zip(env[op.destination], vals):
+                    self.mem[c] = v
+            elif isinstance(op, linalg.GenericOp):
+                tag = op.attributes["tag"].value.data
+                ins = tuple(tuple(self.rd(c) for c in env[v]) for v in op.inputs)
+                self.log.append((tag, ins))
+                for j, v in enumerate(op.outputs):
+                    for k, c in enumerate(env[v]):
+                        self.mem[c] = self.mk(("f", tag, j, k, len(self.log), ins))
+            elif isinstance(op, scf.ForOp):
+                n = self.trips[self.entry % len(self.trips)]
+                self.entry += 1
+                for _ in range(n):
+                    self.run(op.body.block, env)
+            elif isinstance(op, (arith.ConstantOp, scf.YieldOp, memref.DimOp, func.ReturnOp)):
+                pass
+            else:
+                raise NotImplementedError(op.name)
+
+
+def simulate_pipe(module, trips, tbl):
+    from xdsl.dialects import func
+    f = [o for o in module.walk() if isinstance(o, func.FuncOp)][0]
+    s = SymC(trips, tbl)
+    env = {}
+    for arg, name in zip(f.body.block.args, PIPE16 + PIPE8):
+        env[arg] = [(name, i) for i in range(2 if name in PIPE16 else 1)]
+    s.run(f.body.block, env)
+    obs = {f"{n}[{i}]": s.rd((n, i)) for n in PIPE16 + PIPE8 for i in range(2 if n in PIPE16 else 1)}
+    return s.log, obs
+
+
+def impl_pipe(case):
+    src = pipe_src(case)
+    try:
+        before = snaxrun.parse(src)
+        before.verify()
+    except Exception as e:
+        return {"invalid_input": f"{type(e).__name__}: {str(e)[:100]}"}
+    try:
+        after = snaxrun.parse(snaxrun.run_passes(src, "set-memory-space,realize-memref-casts"))
+        after.verify()
+        if not dominance_ok(after):
+            raise ValueError("an operand is used outside the region that defines it")
+    except Exception as e:
+        return {"valid": False, "why": f"{type(e).__name__}: {str(e)[:100]}", "sem": None}
+    from xdsl.dialects import linalg
+    bad_space = [op.attributes["tag"].value.data for op in after.walk() if isinstance(op, linalg.GenericOp)
+                 and any(space_name(v.type) != "L1" for v in op.operands)]
+    sem = None
+    for trips in TRIPS:
+        tbl = {}
+        lb, ob = simulate_pipe(before, trips, tbl)
+        la, oa = simulate_pipe(after, trips, tbl)
+        if lb != la:
+            k = next((i for i, (x, y) in enumerate(zip(lb, la)) if x != y), min(len(lb), len(la)))
+            sem = {"trips": trips, "what": f"the accelerator operation executed as #{k} (tag {lb[k][0] if k < len(lb) else '?'}) reads different data"}
+            break
+        if ob != oa:
+            sem = {"trips": trips, "what": f"final content of {sorted(k for k in ob if ob[k] != oa[k])} differs"}
+            break
+    return {"valid": True, "why": None, "sem": sem, "not_l1": bad_space}
+
+
+def classify_pipe(case):
+    """Clauses violated by the program, following where the UNCHANGED set-memory-space puts the (single, shared) L1 cast of
+    a value: directly in front of its first accelerator use in walk order.
+    c: a later use lies outside the block of the first use (DC12c, invalid IR);  a: the last use as output is nested
+    deeper than the cast (DC12a);  b: the memory of the value is touched through another path between the first use and the
+    end of the item holding the last use (DC12b)."""
+    flat = []
+
+    def walk(items, path):
+        for i, it in enumerate(items):
+            if it[0] == "for":
+                walk(it[1], path + [i])
+            elif it[0] == "op":
+                flat.append((path + [i], "op", [it[2], it[3]], [it[4]]))
+            else:
+                flat.append((path + [i], "hcopy", [it[1]], [it[2]]))
+    walk(case["body"], [])
+    tags = set()
+    vals = {v for e in flat if e[1] == "op" for v in e[2] + e[3]}
+    for v in vals:
+        uses = [i for i, e in enumerate(flat) if e[1] == "op" and v in e[2] + e[3]]
+        P = flat[uses[0]][0][:-1]
+        if any(flat[i][0][:len(P)] != P for i in uses):
+            tags.add("c")
+            continue
+        outs = [i for i in uses if v in flat[i][3]]
+        if outs and len(flat[outs[-1]][0]) > len(P) + 1:
+            tags.add("a")
+        top_last = flat[uses[-1]][0][:len(P) + 1]
+        hi = uses[-1]
+        while hi + 1 < len(flat) and flat[hi + 1][0][:len(P) + 1] == top_last:
+            hi += 1
+        for i in range(uses[0], hi + 1):
+            path, kind, r, w = flat[i]
+            for x in r + w:
+                if (x != v and pipe_cells(x) & pipe_cells(v)) or (x == v and kind == "hcopy"):
+                    tags.add("b")
+    return tags
+
+
+def oracle_pipe(case, out):
+    if "invalid_input" in out or "raised" in out:
+        return []
+    tags = classify_pipe(case)
+    v = []
+    if not out["valid"]:
+        return [{"what": f"set-memory-space,realize-memref-casts produced invalid IR ({out['why']})",
+                 "finding": "DC12c" if "c" in tags else None}]
+    if out["not_l1"]:
+        v.append({"what": f"accelerator operations {out['not_l1']} have operands outside L1", "finding": None})
+    if out["sem"] is not None:
+        fid = "DC12b" if "b" in tags else ("DC12a" if "a" in tags else None)
+        v.append({"what": f"after set-memory-space,realize-memref-casts {out['sem']['what']} (trip counts per loop entry "
+                          f"{out['sem']['trips']})", "finding": fid})
+    return v
+
+
+
 # -- syntactic clauses of the partial theorem, evaluated on the generated program (harness side) ---------
 
 def classify(case):
@@ -758,10 +1115,10 @@ class C12(Prop):
             yield gen_const(rng, big=not q)
         for i, c in enumerate(perm_cases(2 if q else 3)):
             yield c
-        for _ in range(40 if q else 600):
-            c = gen_const(rng)
-            c["kind"] = "glob"
-            yield c
+        for _ in range(80 if q else 1200):
+            yield gen_glob(rng)
+        for _ in range(350 if q else 6000):
+            yield gen_pipe(rng, big=not q)
         for _ in range(60 if q else 1500):
             cols, rows = rng.randint(0, 6), rng.randint(0, 6)
             n = cols * rows + (rng.choice([-1, 1, 2]) if rng.random() < 0.1 else 0)
@@ -778,6 +1135,8 @@ class C12(Prop):
             return impl_const(case)
         if k == "glob":
             return impl_glob(case)
+        if k == "pipe":
+            return impl_pipe(case)
         if k == "transpose":
             from snaxc.transforms.frontend.remove_transpose_constants import RemoveTransposeConstants
             return {"out": list(RemoveTransposeConstants().transpose_tuple(tuple(case["a"]), case["cols"], case["rows"]))}
@@ -790,6 +1149,10 @@ class C12(Prop):
     # -- model ------------------------------------------------------------------------------
     def requests(self, case, impl_out):
         k = case["kind"]
+        if k == "glob" and case.get("strided"):
+            return []  # `dest layout is not tsl`: not transformed
+        if k == "pipe":
+            return []
         if k in ("const", "glob"):
             return [{"fn": "c12.transformConstant", "args": {"data": case["data"], "layout": {"ts": case["ts"], "offset": case["offset"]}}}]
         if k == "transpose":
@@ -818,6 +1181,10 @@ class C12(Prop):
         k = case["kind"]
         if "invalid_input" in impl_out:
             return impl_out
+        if k == "pipe":
+            return {"oracle_only": True}
+        if k == "glob" and case.get("strided"):
+            return {"out": None}
         if k in ("const", "glob", "transpose"):
             a = answers[0]
             if "err" in a:
@@ -856,6 +1223,12 @@ class C12(Prop):
             if isinstance(model_out, dict) and model_out.get("raised") == impl_out["raised"]:
                 return None
             return "the real code raised, the model did not (or another exception)"
+        if case["kind"] == "pipe":
+            return None  # end-to-end kind: judged by the oracle only
+        if case["kind"] == "glob" and "out" in impl_out:
+            if canon_json(impl_out["out"]) != canon_json(model_out.get("out", "?")):
+                return "data of the new global differs from the model's transformConstant"
+            return None
         if case["kind"] != "realize" or "per" not in impl_out:
             if case["kind"] == "memspace" and "raised" in impl_out:
                 return None
@@ -876,8 +1249,12 @@ class C12(Prop):
         k = case["kind"]
         if "raised" in out or "invalid_input" in out:
             return []
-        if k in ("const", "glob"):
+        if k == "const":
             return oracle_const(case, out)
+        if k == "glob":
+            return oracle_glob(case, out)
+        if k == "pipe":
+            return oracle_pipe(case, out)
         if k == "transpose":
             a, cols, rows = case["a"], case["cols"], case["rows"]
             o = out["out"]
@@ -907,7 +1284,9 @@ class C12(Prop):
         if "raised" in out or "invalid_input" in out:
             return False
         if k in ("const", "glob"):
-            return out.get("out") is not None and out["out"] != case["data"]
+            return k == "glob" or (out.get("out") is not None and out["out"] != case["data"])
+        if k == "pipe":
+            return "for" in str(case["body"])
         if k == "transpose":
             return case["cols"] > 1 and case["rows"] > 1
         if k == "memspace":
@@ -922,6 +1301,8 @@ class C12(Prop):
             return f"{k}:raised:{out['raised']}"
         if k in ("const", "glob"):
             return f"{k}:{'none' if out.get('out') is None else 'transformed'}"
+        if k == "pipe":
+            return f"pipe:{'invalid' if not out.get('valid', True) else ('ok' if out.get('sem') is None else 'differs')}"
         if k == "realize" and "per" in out:
             return f"realize:{'ok' if out['sem'] is None else 'differs'}:{case['where']}"
         if k == "memspace" and "valid" in out:
@@ -946,6 +1327,18 @@ class C12(Prop):
                     yield {**case, "body": b}
             if case["where"] == "loop":
                 yield {**case, "where": "top"}
+        elif k == "pipe":
+            def drop(items):
+                for i in range(len(items)):
+                    yield items[:i] + items[i + 1:]
+                    if items[i][0] == "for":
+                        yield items[:i] + items[i][1] + items[i + 1:]
+                        for sub in drop(items[i][1]):
+                            if sub:
+                                yield items[:i] + [["for", sub]] + items[i + 1:]
+            for b in drop(case["body"]):
+                if b:
+                    yield {**case, "body": b}
         elif k == "memspace":
             for i in range(len(case["ops"])):
                 if len(case["ops"]) > 1:
